@@ -1,7 +1,8 @@
 (* driver for component ServerLoop (C14).
      model   <ops>   the extracted model: one observation line per logged event + a state line per op
      monitor <obs>   the extracted Spec monitors over an observation log (lines "<case> <event…>",
-                     e.g. the implementation's): per case "<case> verdict <0|1|2|3|4> <#events> <first rejected event>"
+                     e.g. the implementation's): per case "<case> verdict <0..6> <#events> <first rejected event>"
+                     (1 tmon, 2 rmon, 3 cmt - the text-level reading of the closed clause -, 4 imon, 5 wmon, 6 kmon)
    The property oracle of checks/C14.py is `monitor` applied to the implementation's log. *)
 open Model
 open Zconv
@@ -58,11 +59,19 @@ let rec split_on (sep : string) (l : string list) : string list list =
 let parse_bits (b : int) : nbits =
   { nIn = b land 1 <> 0; nOut = b land 2 <> 0; nRdhup = b land 4 <> 0; nHup = b land 8 <> 0; nErr = b land 16 <> 0 }
 
+(* "<dt>[+][!][:…]": `+` (the item continues the previous one: sockets that were ready at the same moment, cut into pieces of 63 by
+   the generator - exactly what a caller with a 64-entry array gets from consecutive epoll_wait calls) and `!` (epoll_wait fails with
+   EINTR after dt: for the loop a wake-up without events) need nothing in the model: an item is any list of ready sockets. *)
+let strip_marks (dt : string) : string =
+  let n = ref (String.length dt) in
+  while !n > 0 && (dt.[!n - 1] = '+' || dt.[!n - 1] = '!') do decr n done;
+  String.sub dt 0 !n
+
 let parse_item (s : string) : epitem =
   match String.index_opt s ':' with
-  | None -> { ep_dt = num s; ep_ready = [] }
+  | None -> { ep_dt = num (strip_marks s); ep_ready = [] }
   | Some k ->
-    let dt = String.sub s 0 k and rest = String.sub s (k + 1) (String.length s - k - 1) in
+    let dt = strip_marks (String.sub s 0 k) and rest = String.sub s (k + 1) (String.length s - k - 1) in
     let rs = List.filter (fun x -> x <> "") (String.split_on_char ',' rest) in
     { ep_dt = num dt;
       ep_ready = List.map (fun r -> match String.split_on_char '=' r with
@@ -187,11 +196,13 @@ let run_model file =
 let run_monitor file =
   let ic = open_in file in
   let cur = ref (-1) in
-  let t = ref (Some tmon0) and r = ref (Some rmon0) and c = ref (Some cmon0) and i = ref (Some imon0) in
+  let t = ref (Some tmon0) and r = ref (Some rmon0) and c = ref (Some cmt0) and i = ref (Some imon0) in
+  let w = ref (Some wmon0) and km = ref (Some kmon0) in
   let n = ref 0 and verdict = ref 0 and culprit = ref "-" in
   let flush_case () =
     if !cur >= 0 then Printf.printf "%d verdict %d %d %s\n" !cur !verdict !n !culprit in
-  let reset k = flush_case (); cur := k; t := Some tmon0; r := Some rmon0; c := Some cmon0; i := Some imon0;
+  let reset k = flush_case (); cur := k; t := Some tmon0; r := Some rmon0; c := Some cmt0; i := Some imon0;
+    w := Some wmon0; km := Some kmon0;
     n := 0; verdict := 0; culprit := "-" in
   let stepm st f e = match !st with Some m -> st := f m e | None -> () in
   (try
@@ -204,8 +215,10 @@ let run_monitor file =
         (match parse_ev rest with
          | Some e when !verdict = 0 ->
            incr n;
-           stepm t tmon_step e; stepm r rmon_step e; stepm c cmon_step e; stepm i imon_step e;
-           let v = if !t = None then 1 else if !r = None then 2 else if !c = None then 3 else if !i = None then 4 else 0 in
+           stepm t tmon_step e; stepm r rmon_step e; stepm c cmt_step e; stepm i imon_step e;
+           stepm w wmon_step e; stepm km kmon_step e;
+           let v = if !w = None then 5 else if !t = None then 1 else if !km = None then 6 else if !r = None then 2
+             else if !c = None then 3 else if !i = None then 4 else 0 in
            if v <> 0 then (verdict := v; culprit := String.concat "_" rest)
          | _ -> ())
       | _ -> ()
